@@ -18,7 +18,7 @@ SCRATCH_ROOT = os.environ.get("VERIF_SCRATCH", "/var/tmp/mdw-verif")
 SHIMS = os.path.join(VERIF, "overlay", "shims")
 HARNESS = os.path.join(VERIF, "harness")
 
-LIB_PREFIX = '#![cfg_attr(kani, recursion_limit = "1024")]\n'
+LIB_PREFIX = '#![cfg_attr(kani, recursion_limit = "1024")]\n#![cfg_attr(kani, feature(allocator_api))]\n'
 LIB_SUFFIX = "\n#[cfg(kani)]\nmod verif;\n"
 
 
@@ -29,8 +29,9 @@ def _sweep_stale(max_age_s=6 * 3600):
     for name in os.listdir(SCRATCH_ROOT):
         path = os.path.join(SCRATCH_ROOT, name)
         pid = name.rsplit(".", 1)[-1]
-        alive = pid.isdigit() and os.path.exists("/proc/%s" % pid)
-        if not alive:
+        if not (os.path.isdir(path) and "." in name and pid.isdigit()):
+            continue  # not one of ours
+        if not os.path.exists("/proc/%s" % pid):
             shutil.rmtree(path, ignore_errors=True)
 
 
@@ -78,6 +79,9 @@ class Overlay:
         for f in sorted(os.listdir(HARNESS)):
             if f.endswith(".rs"):
                 shutil.copy(os.path.join(HARNESS, f), os.path.join(vdir, f))
+        # constants for C14's concrete test image, computed by an independent reader
+        import elfmini
+        elfmini.emit(os.path.join(self.src, "src", "linux", "module_reader.rs"), os.path.join(vdir, "c14_tiny_elf_data.rs"))
         # lib.rs: recursion limit (first line) + `mod verif;` (appended)
         lib = os.path.join(self.src, "src", "lib.rs")
         with open(lib) as fh:
@@ -85,7 +89,7 @@ class Overlay:
         with open(lib, "w") as fh:
             fh.write(LIB_PREFIX + text + LIB_SUFFIX)
         # shims: appended to the END of the copied files, original line
-        # numbers shift by exactly one line in lib.rs only.
+        # numbers shift by exactly two lines in lib.rs only.
         for root, _dirs, files in os.walk(SHIMS):
             for f in sorted(files):
                 sp = os.path.join(root, f)
